@@ -387,6 +387,13 @@ def realise_multirule(item):
         form = form + inner(u, v) * dx               # default rule, polynomial: exact
     if var % 3 == 1:
         form = form + g * g * inner(u, v) * dA       # same rule twice
+    if item["mr"].get("onepoint"):
+        # a one-point rule next to a many-point rule: every table of the one-point rule is trivially
+        # "constant over its points", yet the coefficient must still be re-evaluated in the other rule's loop
+        c0 = [Fr(1, 3)] * td if cell in ("triangle", "tetrahedron") else [Fr(1, 2)] * td
+        one = {"quadrature_rule": "custom", "quadrature_points": np.array([[float(c) for c in c0]]),
+               "quadrature_weights": np.array([0.5])}
+        form = f * inner(u, v) * dx(metadata=one) + f * g * inner(u, v) * dA
     return {"form": form, "exact_ok": True, "case": item["mr"]}
 
 
@@ -417,7 +424,13 @@ def realise_c05(item):
 
     dA = dx(metadata=custom_md(cell, var))
     dF = ds(metadata=custom_md(FACET_CELL[cell], var)) if cell != "interval" else ds
-    if var % 4 == 0:
+    if var % 5 == 4:
+        # a constant that vanishes in preprocessing (source term of the differentiated functional) while others
+        # survive: the descriptor and the kernels must both keep counting it (original constant order)
+        u = ufl.TrialFunction(f[1].ufl_function_space())
+        F = k0 * v * dA + k1[td - 1] * sc(f[1]) * sc(f[0]) * v * dA + k2[0, td - 1] * sc(f[1]) * v * dF
+        form = derivative(F, f[1], u)
+    elif var % 4 == 0:
         # f1 cancels by differentiation (the functional is linear in it), f3 unused, f0 only on dx, f2 only on ds
         u = ufl.TrialFunction(f[1].ufl_function_space())
         F = sc(f[1]) * sc(f[0]) * v * dA + sc(f[2]) * sc(f[1]) * v * dF
@@ -434,4 +447,24 @@ def realise_c05(item):
         # rank 0, only the last two coefficients survive
         form = sc(f[2]) * sc(f[3]) * k1[0] * dA + sc(f[3]) * k2[td - 1, 0] * dF
     fd = ufl.algorithms.compute_form_data(form, do_append_everywhere_integrals=False)
-    return {"form": form, "exact_ok": True, "case": v_, "expect_positions": list(fd.original_coefficient_positions)}
+    return {"form": form, "exact_ok": True, "case": v_, "expect_positions": list(fd.original_coefficient_positions),
+            "expect_constants": [list(c.ufl_shape) for c in form.constants()]}
+
+
+def realise_underint(item):
+    """An explicit low quadrature degree on an integrand of higher degree: the kernel must apply exactly the
+    requested rule (basix default rules of degree 0-2 have rational points, so the oracle evaluates that rule)."""
+    ensure_repo_on_path()
+    import basix.ufl as bu
+    import ufl
+    from ufl import dx, inner
+
+    cell, q, rank = item["ui"]["cell"], item["ui"]["q"], item["ui"]["rank"]
+    td = TDIM[cell]
+    dom = ufl.Mesh(bu.element("Lagrange", cell, 1, shape=(td,)))
+    V = ufl.FunctionSpace(dom, make_element("P2", cell, td))
+    u, v = ufl.TrialFunction(V), ufl.TestFunction(V)
+    f = ufl.Coefficient(V)
+    dq = dx(degree=q) if item["ui"].get("how", "degree") == "degree" else dx(metadata={"quadrature_degree": q})
+    form = {0: f * f * dq, 1: f * inner(f, v) * dq, 2: f * inner(u, v) * dq}[rank]
+    return {"form": form, "exact_ok": False, "case": item["ui"]}
